@@ -513,6 +513,9 @@ class Ctx:
         }
         if self.known_hits:
             ev["coverage"]["known_findings_hit"] = self.known_hits
+        if not ev["coverage"].get("samples"):
+            # a check that recorded no input sample still shows what it explored: its proof obligations
+            ev["coverage"]["samples"] = [{"obligation": t} for t in (ev["coverage"].get("theorems") or [])[:6]]
         os.makedirs(os.path.join(VERIF, "evidence"), exist_ok=True)
         with open(os.path.join(VERIF, "evidence", self.prop + ".json"), "w") as f:
             json.dump(ev, f, indent=1, default=str)
